@@ -78,10 +78,12 @@ Theorem C19_decompress_original :
 Proof. exact decompress_original. Qed.
 Print Assumptions C19_decompress_original.
 
-(* An image whose archive is not modified is written back byte-identical
-   (Image.WriteFile writes the bytes NewImage read; Update is not involved). *)
-Theorem C19_unmodified_writeback : forall img im,
-  new_image img = Ok im -> write_file im = img.
+(* An image whose archive is not modified is written back byte-identical: the file
+   afterwards is exactly the image, whatever the destination held before (nothing,
+   an empty file, other content of the same size, a larger or a shorter file).
+   Image.WriteFile writes the bytes NewImage read; Update is not involved. *)
+Theorem C19_unmodified_writeback : forall img im old,
+  new_image img = Ok im -> write_file old im = img.
 Proof. exact unmodified_writeback. Qed.
 Print Assumptions C19_unmodified_writeback.
 
@@ -158,4 +160,12 @@ Example ex_trailing_slot_refused :
   new_image (enc_fmap (mkFmap (mkHeader fmap_signature 1 1 0 4096 (ex_name32 [70]) 1)
                          [mkArea 160 (zlen (embed ex_arch) + 30) (ex_name32 coreboot_name) 0]) ++
              zrepeat 255 62 ++ embed ex_arch ++ zrepeat 255 30) = Err E_UEOF.
+Proof. vm_compute. reflexivity. Qed.
+
+(* writing back over a LARGER existing file leaves exactly the image: no stale tail *)
+Example ex_writeback_over_larger :
+  match new_image ex_img with
+  | Ok im => (write_file (Some (ex_img ++ zrepeat 7 100)) im, write_file None im, write_file (Some []) im)
+  | _ => ([], [], [])
+  end = (ex_img, ex_img, ex_img).
 Proof. vm_compute. reflexivity. Qed.
